@@ -19,11 +19,14 @@ Definition C01_statement (unit_ : Type) (wf : unit_ -> Prop) (render_unit : unit
       Proofs/ConformingCounters.v) - theorems about the generated functions of Gen/RuleChecks.v, Gen/MoreChecks.v, Gen/Counters.v,
       Gen/ScopeOps.v, for ANY remaining token list / statement length / context view under the stated conforming conditions
       (K = token kinds, tied to the text by conforming_text_kinds; P = columns, C09 / C03; V = the view at the statement, given):
-        whole checks (9): CheckTernary (K), CheckLabel (K), CheckLineLen (P), CheckManyInstructions (P),
+        whole checks (12): CheckTernary (K), CheckLabel (K), CheckLineLen (P), CheckManyInstructions (P),
                           CheckEmptyLine (V: statements and empty lines), CheckFunctionsCount (trace model),
                           CheckLineIndent (V: skipped statements, plain lines, `}` lines, `{` lines),
                           CheckExpressionStatement (K/shape: expr_pos_ok at every position, `return ;` / `return (...) ;` by return_ok),
-                          CheckSpacing (shape: sp_ok at every position of the statement - loop invariant over the statement);
+                          CheckSpacing (shape: sp_ok at every position of the statement - loop invariant over the statement),
+                          CheckIdentifierName (names over [a-z0-9_]; functions at global scope), CheckComment (K: no comment token in
+                          the remaining tokens; or outside functions every comment first on its line / followed by blanks only),
+                          CheckLineCount (unconditional: its guard names a rule no primary has; V: the history holds primaries);
         partial (5):      CheckControlStatement (translated part = 4 of its 6 codes: cs_pos_ok at every position of the control line,
                           every `(` closed before the line end - invariant of the scan and of check_nest; not at global scope),
                           CheckUtypeDeclaration (translated part, in headers), CheckBrace (TOO_MANY_LINES at <= 25 lines),
@@ -38,13 +41,17 @@ Definition C01_statement (unit_ : Type) (wf : unit_ -> Prop) (render_unit : unit
       tabs, identifiers (any letter or _ first except l L u U), single spaces, one-character operators, brackets, the listed atoms,
       line ends - is cut into exactly one token per lexeme, of the kind lx_type says, and NO diagnostic is recorded,
       (d) verdict / exit (C04).
-   Checks proved silent as a whole: 11 of 39 (the nine above, CheckHeader, CheckPreprocessorProtection).
-   TESTED ONLY by tools/harness/c01.py (28 checks; the five marked * have the partial theorems above):
-     CheckAssignation CheckAssignationIndent CheckBlockStart CheckBrace* CheckComment CheckCommentLineLen CheckControlStatement*
+   Checks proved silent as a whole: 14 of 39 (the twelve above, CheckHeader, CheckPreprocessorProtection).
+   TESTED ONLY by tools/harness/c01.py (25 checks; the five marked * have the partial theorems above):
+     CheckAssignation CheckAssignationIndent CheckBlockStart CheckBrace* CheckCommentLineLen CheckControlStatement*
      CheckDeclaration CheckEnumVarDecl CheckFuncArgumentsName CheckFuncDeclaration* CheckFuncSpacing CheckGeneralSpacing
-     CheckGlobalNaming CheckIdentifierName CheckInHeader CheckLineCount CheckNestLineIndent CheckNewlineIndent
+     CheckGlobalNaming CheckInHeader CheckNestLineIndent CheckNewlineIndent
      CheckOperatorsSpacing CheckPreprocessorDefine CheckPreprocessorInclude CheckPreprocessorIndent CheckPrototypeIndent
      CheckStructNaming CheckUtypeDeclaration* CheckVariableDeclaration* CheckVariableIndent
+   Why the five stay partial: CheckControlStatement's TOO_MANY_TAB / TOO_FEW_TAB part is left out by the translator
+   (tools/translate_more.py, not ours); CheckBrace, CheckVariableDeclaration and CheckFuncDeclaration emit further codes
+   (BRACE_SHOULD_EOL, SPC_BEFORE_NL, VAR_DECL_START_FUNC, MULT_DECL_LINE, BRACE_NEWLINE, ...) on paths the counter models do not
+   cover; CheckUtypeDeclaration is translated up to its FORBIDDEN_<type> test only.
    Also only tested: that the engine cuts a rendered unit into statements with the views the V hypotheses describe; for (c):
    `.` `->` `?` `:` `#`, constants outside the atom list, comments. *)
 Theorem C01_partial_K : C01_partial_K_statement.
